@@ -147,6 +147,26 @@ def row_reachability(ctx, L):
                 ctx.fail('athlib.sportshall_score', [code, v], 'p %d' % p, got, note='unreachable-row: the threshold mark of the %d-point row does not score %d' % (p, p),
                          replay_py='result = athlib.sportshall_score(%r, %r)' % (code, v))
     ctx.count(n, 'sportshall_rows')
+    # the documented verbose switch only prints a trace: the points must be those of the quiet call (every threshold, and one
+    # hundredth either side of it)
+    import io, contextlib
+    nv = 0
+    for code, e in L['sh_db'].items():
+        for p, v in e['perf2points']:
+            try: c = int(round(float(v) * 100))
+            except Exception: continue
+            for k in (c - 1, c, c + 1):
+                if k < 0: continue
+                t = '%d.%02d' % (k // 100, k % 100)
+                quiet = JC.canon(lambda: L['athlib'].sportshall_score(code, t))
+                buf = io.StringIO()
+                with contextlib.redirect_stdout(buf):
+                    loud = JC.canon(lambda: L['athlib'].sportshall_score(code, t, verbose=True))
+                nv += 1
+                if loud != quiet:
+                    ctx.fail('athlib.sportshall_score', [code, t, 'verbose=True'], quiet + ' (the answer without verbose)', loud, note='glue: the verbose option changes the points',
+                             replay_py='result = (athlib.sportshall_score(%r, %r), athlib.sportshall_score(%r, %r, verbose=True))' % (code, t, code, t))
+    ctx.count(nv, 'sportshall_verbose_calls')
 
 
 def glue(ctx, L):
